@@ -25,13 +25,12 @@ impl W {
     }
 }
 
-pub fn h_ser_opaque<S: Src>(s: &mut S) {
-    let buf: [u8; 4] = s.bytes();
+pub fn h_ser_opaque<S: Src, const WHICH: u8>(s: &mut S) {
+    let buf: [u8; 2] = s.bytes();
     let n = s.usize();
-    vassume!(s, n <= 4);
+    vassume!(s, n <= 2);
     let d = &buf[..n];
-    let which = s.u8();
-    vassume!(s, which < 5);
+    let which = WHICH;
     let (msg, ty): (TlsMessageHandshake, u8) = match which {
         0 => (TlsMessageHandshake::Finished(d), 0x14),
         1 => (TlsMessageHandshake::ClientKeyExchange(TlsClientKeyExchangeContents::Unknown(d)), 0x10),
@@ -70,13 +69,12 @@ pub fn h_ser_ccs<S: Src>(s: &mut S) {
     }
 }
 
-pub fn h_ser_record<S: Src>(s: &mut S) {
-    let buf: [u8; 3] = s.bytes();
-    let n = s.usize();
-    vassume!(s, n <= 3);
+pub fn h_ser_record<S: Src, const TWO: bool>(s: &mut S) {
+    let buf: [u8; 1] = s.bytes();
+    let n = 1usize;
     let ver = s.u16();
-    let two = s.bool();
-    let mut msgs = Vec::new();
+    let two = TWO;
+    let mut msgs = Vec::with_capacity(2);
     msgs.push(TlsMessage::Handshake(TlsMessageHandshake::Finished(&buf[..n])));
     if two { msgs.push(TlsMessage::Handshake(TlsMessageHandshake::HelloRequest)); }
     let rec = TlsPlaintext { hdr: TlsRecordHeader { record_type: TlsRecordType::Handshake, version: TlsVersion(ver), len: 0 }, msg: msgs };
@@ -92,10 +90,9 @@ pub fn h_ser_record<S: Src>(s: &mut S) {
     }
 }
 
-pub fn h_ser_unsupported<S: Src>(s: &mut S) {
+pub fn h_ser_unsupported<S: Src, const K: u8>(s: &mut S) {
     let d: [u8; 2] = s.bytes();
-    let k = s.u8();
-    vassume!(s, k < 12);
+    let k = K;
     let m: TlsMessageHandshake = match k {
         0 => TlsMessageHandshake::NewSessionTicket(TlsNewSessionTicketContent { ticket_lifetime_hint: 0, ticket: &d }),
         1 => TlsMessageHandshake::EndOfEarlyData,
@@ -119,23 +116,20 @@ pub fn h_ser_unsupported<S: Src>(s: &mut S) {
 }
 
 /// ClientHello / ServerHello (all three wire forms) against the reference encoding
-pub fn h_ser_hello<S: Src, const KIND: u8>(s: &mut S) {
+/// SHAPE 0 = minimal (no session id, no extension block, no ciphers, no compression);
+/// SHAPE 1 = full (1-byte session id, 1-byte extension block, 2 ciphers, 1 compression). Contents symbolic.
+pub fn h_ser_hello<S: Src, const KIND: u8, const SHAPE: u8>(s: &mut S) {
     let random: [u8; 32] = s.bytes();
-    let sb: [u8; 2] = s.bytes();
-    let sn = s.usize();
-    vassume!(s, sn <= 2);
-    let sid: Option<&[u8]> = if s.bool() { Some(&sb[..sn]) } else { None };
-    let eb: [u8; 2] = s.bytes();
-    let en = s.usize();
-    vassume!(s, en <= 2);
-    let ext: Option<&[u8]> = if s.bool() { Some(&eb[..en]) } else { None };
+    let sb: [u8; 1] = s.bytes();
+    let sid: Option<&[u8]> = if SHAPE == 1 { Some(&sb[..]) } else { None };
+    let eb: [u8; 1] = s.bytes();
+    let ext: Option<&[u8]> = if SHAPE == 1 { Some(&eb[..]) } else { None };
     let ver = s.u16();
     let c0 = s.u16();
     let c1 = s.u16();
     let k0 = s.u8();
-    let nc = s.u8();
-    vassume!(s, nc <= 2);
-    let has_comp = s.bool();
+    let nc: u8 = if SHAPE == 1 { 2 } else { 0 };
+    let has_comp = SHAPE == 1;
     let mut w = W::new();
     let (msg, body_len): (TlsMessageHandshake, usize);
     let sl = match sid { Some(x) => x.len(), None => 0 };
@@ -177,7 +171,7 @@ pub fn h_ser_hello<S: Src, const KIND: u8>(s: &mut S) {
 }
 
 /// SNI / max_fragment_length / supported_groups through gen_tls_extension(s)
-pub fn h_ser_extensions<S: Src>(s: &mut S) {
+pub fn h_ser_extensions<S: Src, const PART: u8>(s: &mut S) {
     use ::cookie_factory::gen_simple;
     let nb: [u8; 2] = s.bytes();
     let nn = s.usize();
@@ -188,6 +182,7 @@ pub fn h_ser_extensions<S: Src>(s: &mut S) {
     let ng = s.u8();
     vassume!(s, ng <= 2);
     let mfl = s.u8();
+    if PART == 0 {
     // SNI with one name
     let mut v = Vec::new();
     v.push((SNIType(nt), &nb[..nn]));
@@ -198,6 +193,8 @@ pub fn h_ser_extensions<S: Src>(s: &mut S) {
         Ok(out) => vassert!(s, w.eq(&out), "gen_tls_extension(SNI): type 0, extension length, list length, (name type, u16 name length, name)"),
         Err(_) => vassert!(s, false, "gen_tls_extension(SNI) succeeds"),
     }
+    }
+    if PART == 1 {
     let e = TlsExtension::MaxFragmentLength(mfl);
     let mut w = W::new();
     w.u16(1); w.u16(1); w.u8(mfl);
@@ -205,6 +202,10 @@ pub fn h_ser_extensions<S: Src>(s: &mut S) {
         Ok(out) => vassert!(s, w.eq(&out), "gen_tls_extension(MaxFragmentLength): type 1, length 1, the code"),
         Err(_) => vassert!(s, false, "gen_tls_extension(MaxFragmentLength) succeeds"),
     }
+    let u = TlsExtension::Cookie(&nb[..nn]);
+    vassert!(s, matches!(gen_simple(gen_tls_extension(&u), Vec::new()), Err(GenError::NotYetImplemented)), "unsupported extensions yield GenError::NotYetImplemented");
+    }
+    if PART == 2 {
     let mut g = Vec::new();
     if ng >= 1 { g.push(NamedGroup(g0)); }
     if ng >= 2 { g.push(NamedGroup(g1)); }
@@ -217,15 +218,66 @@ pub fn h_ser_extensions<S: Src>(s: &mut S) {
         Ok(out) => vassert!(s, w.eq(&out), "gen_tls_extension(supported_groups): type 10, extension length, list length, groups in order"),
         Err(_) => vassert!(s, false, "gen_tls_extension(supported_groups) succeeds"),
     }
-    let u = TlsExtension::Cookie(&nb[..nn]);
-    vassert!(s, matches!(gen_simple(gen_tls_extension(&u), Vec::new()), Err(GenError::NotYetImplemented)), "unsupported extensions yield GenError::NotYetImplemented");
+    }
 }
 
-harness!(leaf_ser_opaque, unwind = 8, h_ser_opaque);
+/// the length helpers on bodies of EVERY length up to 70000 bytes (above the 16-bit boundary): the emitted u24
+/// equals the number of body bytes written. Body content is a constant array; only its length is symbolic.
+pub fn h_ser_length_u24<S: Src>(s: &mut S) {
+    use ::cookie_factory::combinator::slice;
+    use ::cookie_factory::gen_simple;
+    let data = [0u8; 70000];
+    let n = s.usize();
+    vassume!(s, n <= 70000);
+    let out: Result<Vec<u8>, GenError> = gen_simple(crate::tls_serialize::verif_access::len_be_u24(slice(&data[..n])), Vec::new());
+    match out {
+        Ok(o) => {
+            vassert!(s, o.len() == 3 + n, "length_be_u24: 3 length bytes followed by exactly the body");
+            vassert!(s, be24(&o, 0) as usize == n, "length_be_u24: the emitted 24-bit length equals the byte length of the body it prefixes (also above 65535)");
+        }
+        Err(_) => vassert!(s, false, "length_be_u24 succeeds"),
+    }
+}
+pub fn h_ser_length_u16<S: Src>(s: &mut S) {
+    use ::cookie_factory::combinator::slice;
+    use ::cookie_factory::gen_simple;
+    let data = [0u8; 65535];
+    let n = s.usize();
+    vassume!(s, n <= 65535);
+    let out: Result<Vec<u8>, GenError> = gen_simple(crate::tls_serialize::verif_access::len_be_u16(slice(&data[..n])), Vec::new());
+    match out {
+        Ok(o) => {
+            vassert!(s, o.len() == 2 + n, "length_be_u16: 2 length bytes followed by exactly the body");
+            vassert!(s, be16(&o, 0) as usize == n, "length_be_u16: the emitted 16-bit length equals the byte length of the body it prefixes");
+        }
+        Err(_) => vassert!(s, false, "length_be_u16 succeeds"),
+    }
+}
+harness!(leaf_ser_length_u24, unwind = 4, h_ser_length_u24);
+harness!(leaf_ser_length_u16, unwind = 4, h_ser_length_u16);
+harness!(leaf_ser_finished, unwind = 12, h_ser_opaque::<_, 0>);
+harness!(leaf_ser_cke_unknown, unwind = 12, h_ser_opaque::<_, 1>);
+harness!(leaf_ser_cke_dh, unwind = 12, h_ser_opaque::<_, 2>);
+harness!(leaf_ser_cke_ecdh, unwind = 12, h_ser_opaque::<_, 3>);
+harness!(fd_ser_hello_request, unwind = 12, h_ser_opaque::<_, 4>);
 harness!(fd_ser_ccs, unwind = 4, h_ser_ccs);
-harness!(leaf_ser_record, unwind = 14, h_ser_record);
-harness!(fd_ser_unsupported, unwind = 4, h_ser_unsupported);
-harness!(leaf_ser_client_hello, unwind = 50, h_ser_hello::<_, 0>);
-harness!(leaf_ser_server_hello, unwind = 50, h_ser_hello::<_, 1>);
-harness!(leaf_ser_server_hello_d18, unwind = 50, h_ser_hello::<_, 2>);
-harness!(leaf_ser_extensions, unwind = 14, h_ser_extensions);
+harness!(leaf_ser_record_one, unwind = 12, h_ser_record::<_, false>);
+harness!(leaf_ser_record_two, unwind = 14, h_ser_record::<_, true>);
+harness!(fd_ser_unsupported_0, unwind = 4, h_ser_unsupported::<_, 0>);
+harness!(fd_ser_unsupported_1, unwind = 4, h_ser_unsupported::<_, 1>);
+harness!(fd_ser_unsupported_2, unwind = 4, h_ser_unsupported::<_, 2>);
+harness!(fd_ser_unsupported_3, unwind = 4, h_ser_unsupported::<_, 3>);
+harness!(fd_ser_unsupported_5, unwind = 4, h_ser_unsupported::<_, 5>);
+harness!(fd_ser_unsupported_6, unwind = 4, h_ser_unsupported::<_, 6>);
+harness!(fd_ser_unsupported_8, unwind = 4, h_ser_unsupported::<_, 8>);
+harness!(fd_ser_unsupported_9, unwind = 4, h_ser_unsupported::<_, 9>);
+harness!(fd_ser_unsupported_10, unwind = 4, h_ser_unsupported::<_, 10>);
+harness!(leaf_ser_client_hello_min, unwind = 50, h_ser_hello::<_, 0, 0>);
+harness!(leaf_ser_client_hello_full, unwind = 60, h_ser_hello::<_, 0, 1>);
+harness!(leaf_ser_server_hello_min, unwind = 50, h_ser_hello::<_, 1, 0>);
+harness!(leaf_ser_server_hello_full, unwind = 60, h_ser_hello::<_, 1, 1>);
+harness!(leaf_ser_server_hello_d18_min, unwind = 50, h_ser_hello::<_, 2, 0>);
+harness!(leaf_ser_server_hello_d18_full, unwind = 50, h_ser_hello::<_, 2, 1>);
+harness!(leaf_ser_ext_sni, unwind = 14, h_ser_extensions::<_, 0>);
+harness!(leaf_ser_ext_max_fragment_length, unwind = 10, h_ser_extensions::<_, 1>);
+harness!(leaf_ser_ext_groups, unwind = 14, h_ser_extensions::<_, 2>);
